@@ -47,6 +47,25 @@ func parseCounter(t string) counterUse {
 }
 
 func c19a(c *Ctx) {
+	// state versions left by lexer helpers that end by reading a character (a string part read
+	// by `readStringPart(&sb)` leaves the counters as the readChar of the closing quote did)
+	consumerTag := func(tag string) bool { return false }
+	if rcFn := c.Fn("lexer.Lexer.readChar"); rcFn != nil {
+		names := map[string]bool{}
+		for f := range lexerMustConsume(c, rcFn) {
+			names[f.Name()] = true
+		}
+		consumerTag = func(tag string) bool {
+			if !strings.HasPrefix(tag, "c") {
+				return false
+			}
+			n := tag[1:]
+			if i := strings.Index(n, "@"); i >= 0 {
+				n = n[:i]
+			}
+			return names[n]
+		}
+	}
 	fn := c.Fn("lexer.Lexer.NextToken")
 	nsc := c.Fn("lexer.newSingleCharToken")
 	rst := c.Fn("lexer.Lexer.readStringToken")
@@ -293,7 +312,7 @@ func c19a(c *Ctx) {
 				found := false
 				for _, lf := range leaves[i] {
 					cu := parseCounter(c.term(rs, lf))
-					if cu.ok && cu.fam == fam && strings.HasPrefix(cu.tag, "creadChar@") {
+					if cu.ok && cu.fam == fam && (strings.HasPrefix(cu.tag, "creadChar@") || consumerTag(cu.tag)) {
 						found = true
 					} else if k, isC := intConst(lf); !(isC && k == 0) {
 						okAll = false
